@@ -76,7 +76,9 @@ func c17R1(c *Check, validate, merge, urls *ssa.Function) {
 		name string
 		pred func(*ssa.Call) bool
 	}{
-		{"protojson.Unmarshal", func(cc *ssa.Call) bool { return isCallTo(cc, "google.golang.org/protobuf/encoding/protojson.Unmarshal") }},
+		{"protojson.Unmarshal", func(cc *ssa.Call) bool {
+			return isCallTo(cc, "google.golang.org/protobuf/encoding/protojson.Unmarshal")
+		}},
 		{"validateURLs", func(cc *ssa.Call) bool { return cc.Common().StaticCallee() == urls }},
 		{"mergeAndValidateOIDCConfigs", func(cc *ssa.Call) bool { return cc.Common().StaticCallee() == merge }},
 	}
@@ -190,35 +192,35 @@ func c17R1(c *Check, validate, merge, urls *ssa.Function) {
 		okLatch := false
 		latchBad := ""
 		for _, vf := range deepFuncs(validate, 2) {
-		if pkgPathOf(vf) != pkgInt {
-			continue
-		}
-		ff := FactsOf(vf)
-		// the refusal is produced where the sentinel is loaded (returned at once, or carried to the return
-		// through a result variable): the latch fact must hold there
-		for _, b := range vf.Blocks {
-			for _, ins := range b.Instrs {
-				ld, isL := ins.(*ssa.UnOp)
-				if !isL || !isLoadOfGlobal(ld, g) {
-					continue
-				}
-				for cond, pol := range ff.At(ld) {
-					if ph, isPhi := cond.(*ssa.Phi); isPhi && pol && isBool(ph.Type()) {
-						for _, e := range ph.Edges {
-							if b, isC := constBool(e); isC && b {
-								okLatch = true
+			if pkgPathOf(vf) != pkgInt {
+				continue
+			}
+			ff := FactsOf(vf)
+			// the refusal is produced where the sentinel is loaded (returned at once, or carried to the return
+			// through a result variable): the latch fact must hold there
+			for _, b := range vf.Blocks {
+				for _, ins := range b.Instrs {
+					ld, isL := ins.(*ssa.UnOp)
+					if !isL || !isLoadOfGlobal(ld, g) {
+						continue
+					}
+					for cond, pol := range ff.At(ld) {
+						if ph, isPhi := cond.(*ssa.Phi); isPhi && pol && isBool(ph.Type()) {
+							for _, e := range ph.Edges {
+								if b, isC := constBool(e); isC && b {
+									okLatch = true
+								}
 							}
-						}
-						// the latch is monotone within the chain: once set it stays set until the next chain starts — every
-						// value merged into it is the constant true, the constant false coming from outside the filter loop
-						// (initialisation per chain), or the latch itself; `seen = isOIDC(current)` forgets earlier filters
-						if why := latchNotMonotone(ph); why != "" {
-							latchBad = why
+							// the latch is monotone within the chain: once set it stays set until the next chain starts — every
+							// value merged into it is the constant true, the constant false coming from outside the filter loop
+							// (initialisation per chain), or the latch itself; `seen = isOIDC(current)` forgets earlier filters
+							if why := latchNotMonotone(ph); why != "" {
+								latchBad = why
+							}
 						}
 					}
 				}
 			}
-		}
 		}
 		c.Obl(latchBad == "", "C17.R1", "refusal/multiple-oidc-latch-monotone", P.Pos(validate.Pos()), "the latch is only ever set (true) inside the filter loop and cleared where a chain starts",
 			"the one-OIDC-filter-per-chain latch can be cleared again inside a chain ("+latchBad+"): two OIDC filters separated by another filter are accepted")
@@ -508,7 +510,7 @@ func c17R2(c *Check, validate, merge, defaults, oidcURLs *ssa.Function) {
 					if !mayNil {
 						continue
 					}
-					passes := mustPassBefore(fn, r, func(x ssa.Instruction) bool { return x == ssa.Instruction(cc) })
+					passes := mustPassBeforeLoops(fn, r, func(x ssa.Instruction) bool { return x == ssa.Instruction(cc) })
 					c.Obl(passes, "C17.R2", fmt.Sprintf("%s/not-bypassed/return#%d", key, i+1), P.Pos(instrPos(r)), want+": every successful return has evaluated the test",
 						want+": a return that can report success is reachable without the test having been evaluated (an earlier `return f(…)` ends the validation)")
 				}
@@ -856,7 +858,6 @@ func c17R4(c *Check, validate *ssa.Function) {
 	c15R4(c, fns)
 	c15R5(c, fns)
 }
-
 
 // returnsMayCarry: some return of fn (or of an own helper whose error fn propagates) depends on the
 // sentinel error g.
